@@ -7,7 +7,7 @@ any spawn or signal during three further idle checks.
 """
 from tornado import gen
 
-from vlib import simhist
+from vlib import simhist, simgen
 from vlib.common import CaseResult, rng_for
 from vlib.sim import EPOCH
 
@@ -29,7 +29,7 @@ CASE_TIMEOUT = 60
 K_CHECKS = 3
 
 OPS = ['incr', 'decr', 'setnp', 'restart', 'reload', 'reloadseq', 'reloadterm', 'extkill',
-       'selfexit', 'check', 'advance', 'dieat', 'dieat', 'kill', 'killpid']
+       'selfexit', 'check', 'advance', 'dieat', 'dieat', 'kill', 'killpid', 'clockat']
 
 
 def gen_spec(rnd, boundary=None):
@@ -81,6 +81,8 @@ def gen_spec(rnd, boundary=None):
         elif k == 'dieat':
             steps.append(['inject_death', rnd.randint(1, 14), name, rnd.randint(0, 3),
                           rnd.choice([9, 15, 768, 0])])
+        elif k == 'clockat':
+            steps.append(simgen.gen_step(rnd, [name], ['clockat']))
         if rnd.random() < .5:
             steps.append(['adv', rnd.choice([0, .05, .3])])
     spec = {'kill_latency': rnd.choice([0.0, 0.0, 0.0005, 0.002]), 'watchers': ws, 'steps': steps}
